@@ -33,7 +33,7 @@ inductive Parsed where
   | profile (parts : List Part)
   | boundary                        -- step whose number of levels depends on float64 rounding of from + j·step
 
-def parse (kv : List (String × String)) : Parsed :=
+def parseOne (kv : List (String × String)) : Parsed :=
   let q (k : String) := (lookup kv k).bind Q.parse?
   let durOk (d : Int) := d ≥ 1000000
   match getS kv "kind" with
@@ -75,6 +75,43 @@ def parse (kv : List (String × String)) : Parsed :=
       | some n => if n < 1 then .outside "times<1" else .profile [Part.once n]
       | none => .bad
   | _ => .bad
+
+/-- `kind=seq` (round 6): an rps LIST of profiles, `seq=<part>|<part>|…` with
+`part = const:<ops>:<dur> | line:<from>:<to>:<dur> | step:<from>:<to>:<step>:<dur> | once:<times> | list(<part>;…)`.
+The list's operation stream is the concatenation of each part's own stream, part j starting where part j−1 finished: the
+parts of the flattened list laid end to end (a step profile contributes one const part per rate level). -/
+def atomKV (a : String) : Option (List (String × String)) :=
+  match a.splitOn ":" with
+  | ["const", ops, d] => some [("kind", "const"), ("ops", ops), ("dur", d)]
+  | ["line", f, t, d] => some [("kind", "line"), ("from", f), ("to", t), ("dur", d)]
+  | ["step", f, t, s, d] => some [("kind", "step"), ("from", f), ("to", t), ("step", s), ("dur", d)]
+  | ["once", n] => some [("kind", "once"), ("times", n)]
+  | _ => none
+
+def seqAtoms (s : String) : List String :=
+  (s.splitOn "|").flatMap fun p =>
+    match p.splitOn "list(" with
+    | ["", rest] =>
+        match rest.splitOn ")" with
+        | inner :: _ => inner.splitOn ";"
+        | [] => [p]
+    | _ => [p]
+
+def combineParsed (ps : List Parsed) : Parsed :=
+  if ps.isEmpty || ps.any (fun p => match p with | .bad => true | _ => false) then .bad
+  else match ps.find? (fun p => match p with | .outside _ => true | _ => false) with
+    | some o => o
+    | none =>
+      if ps.any (fun p => match p with | .boundary => true | _ => false) then .boundary
+      else .profile (ps.flatMap fun p => match p with | .profile parts => parts | _ => [])
+
+def parse (kv : List (String × String)) : Parsed :=
+  if getS kv "kind" == "seq" then
+    combineParsed ((seqAtoms (getS kv "seq")).map fun a =>
+      match atomKV a with
+      | some kv' => parseOne kv'
+      | none => .bad)
+  else parseOne kv
 
 def parseToks (s : String) : Option (List (Int × Int)) :=
   (splitList s ";").mapM fun kt =>
